@@ -171,7 +171,8 @@ class _RedisConsumer(ConsumerT):
                 return None
 
             # check if any of the new message names is meeting `startswith_topics` condition
-            for name in names:
+            # (the normal queue is read from its tail, where the oldest message is)
+            for name in names if delayed else reversed(names):
                 str_name = name.decode()
                 if not startswith_topics or str_name.startswith(startswith_topics):
                     return str_name
